@@ -106,7 +106,7 @@ pub fn c06_char_roundtrip() {
 }
 
 /// run the reference machine over raw SGR parameter bytes (`ESC [ data m`)
-pub fn reference_params<const N: usize>(data: &[u8; N]) -> (Seq, bool) {
+pub fn reference_params<const N: usize, const P: usize>(data: &[u8; N]) -> (Seq, bool) {
     let mut sink = Sink::new();
     sink.data[0] = 0x1b;
     sink.data[1] = b'[';
@@ -118,13 +118,13 @@ pub fn reference_params<const N: usize>(data: &[u8; N]) -> (Seq, bool) {
     sink.data[2 + N] = b'm';
     sink.len = N + 3;
     let mut cur = Cur::new(&sink);
-    let s = cur.csi::<8, 4>();
+    let s = cur.csi::<P, 4>();
     (s, cur.finished() && s.fin == b'm')
 }
 
 /// compare the library's reading of `ESC [ data m` with the reference machine, observed on
 /// a fully set and on the default previous rendition
-pub fn sgr_face_case<const N: usize>() {
+pub fn sgr_face_case<const N: usize, const P: usize>() {
     let data: [u8; N] = any();
     let mut i = 0;
     while i < N {
@@ -132,10 +132,10 @@ pub fn sgr_face_case<const N: usize>() {
         assume((b >= b'0' && b <= b'9') || b == b';' || b == b':');
         i += 1;
     }
-    let (s, ok) = reference_params::<N>(&data);
+    let (s, ok) = reference_params::<N, P>(&data);
     assume(ok);
-    let from_dirty = c05::sgr_run(&s, c05::dirty_state());
-    let from_clean = c05::sgr_run(&s, SgrState::reset());
+    let from_dirty = c05::sgr_run_n::<P>(&s, c05::dirty_state());
+    let from_clean = c05::sgr_run_n::<P>(&s, SgrState::reset());
     // parameters outside the machine (faint, conceal, fonts, incomplete colour selections),
     // palette selections and what a face cannot hold are not compared
     assume(!from_dirty.unknown && from_dirty.n_indexed == 0 && from_dirty.n_basic == 0);
@@ -158,3 +158,4 @@ pub fn sgr_face_case<const N: usize>() {
     assert!(same(&got_dirty, &from_dirty), "C06: library reads the SGR differently from SGR semantics (set rendition)");
     assert!(same(&got_clean, &from_clean), "C06: library reads the SGR differently from SGR semantics (default rendition)");
 }
+
